@@ -49,7 +49,7 @@ pub fn lldiv_havoc(numer: i64, denom: i64) -> (i64, i64) {
 }
 
 /// order of (q + rem/d) * 2^e0 relative to m * 2^e, using only q, rem != 0 and shifts
-fn cmp_q(q: i64, rem: i64, e0: i32, m: u64, e: i32) -> Ordering {
+pub fn cmp_q(q: i64, rem: i64, e0: i32, m: u64, e: i32) -> Ordering {
     let sh = e - e0;
     let qq = q as u128;
     if sh >= 0 {
